@@ -42,6 +42,9 @@ pub struct Params {
     /// write issued by the incarnation started after the second crash
     #[serde(default)]
     pub after_restart2: Vec<(i64, u8)>,
+    /// back-pressure limit in units of one single-row batch's in-memory size (0 = practically unlimited)
+    #[serde(default)]
+    pub max_buffer_batches: usize,
 }
 
 fn one() -> usize {
@@ -126,7 +129,7 @@ impl IngestScenario {
             flush_interval: Duration::from_secs(1),
             flush_row_count: self.p.flush_row_count,
             flush_size_bytes: usize::MAX / 4,
-            max_buffer_size_bytes: usize::MAX / 4,
+            max_buffer_size_bytes: if self.p.max_buffer_batches == 0 { usize::MAX / 4 } else { one_row_batch(1, 0).get_array_memory_size() * self.p.max_buffer_batches + 8 },
             wal: WalConfig { wal_dir: self.dir.clone(), max_segment_size: self.p.max_segment_size, sync_mode: WalSyncMode::EveryWrite, enabled: true },
             ..IngesterConfig::default()
         }
@@ -445,6 +448,7 @@ pub fn plans(tier: &str) -> Vec<(Params, Cost)> {
         subscribers: false,
         max_crashes: 1,
         after_restart2: vec![],
+        max_buffer_batches: 0,
     };
     let mut v = vec![
         (Params { name: "faults".into(), faults: true, ..base.clone() }, Cost { preempt: 1, fault: if t { 2 } else { 1 }, ..Cost::ZERO }),
@@ -473,6 +477,16 @@ pub fn plans(tier: &str) -> Vec<(Params, Cost)> {
     v.push((
         Params { name: "2 faults+crash/schema-change".into(), crash: true, faults: true, writers: vec![vec![(1, 0), (3, 1)], vec![(2, 0)]], after_restart: vec![], ticks: 1, ..base.clone() },
         Cost { preempt: 0, fault: 2, crash: 1, ..Cost::ZERO },
+    ));
+    // back-pressure: the buffer holds two single-row batches and only the timer flushes, so some writes are rejected
+    // with BufferFull after they were logged; a rejected write need not survive, every accepted one must
+    v.push((
+        Params { name: "buffer-full rejections + crash".into(), crash: true, writers: vec![vec![(1, 0), (3, 0), (5, 0)], vec![(2, 0), (4, 0)]], after_restart: vec![(6, 0)], flush_row_count: 100, max_buffer_batches: 2, ticks: 1, ..base.clone() },
+        Cost { preempt: 1, crash: 1, ..Cost::ZERO },
+    ));
+    v.push((
+        Params { name: "buffer-full rejections + fault + crash".into(), crash: true, faults: true, writers: vec![vec![(1, 0), (3, 0), (5, 0)], vec![(2, 0), (4, 0)]], flush_row_count: 100, max_buffer_batches: 2, ticks: 2, ..base.clone() },
+        Cost { preempt: 0, fault: 1, crash: 1, ..Cost::ZERO },
     ));
     if t {
         v.push((
